@@ -55,8 +55,11 @@ present == joined \ left
 Full(p) == have[p] = Pieces
 Missing(a) == Pieces \ have[a]
 Endgame(a) == Cardinality(Missing(a)) <= pipe          \* EndgameThreshold defaults to the pipeline limit
-\* pieces a may still ask p for
-Wanted(a, p) == IF a \in Agents THEN {i \in have[p] \ have[a] : <<p, i>> \notin inv[a]} ELSE {}
+\* pieces a may still ask p for: a piece whose request at p failed (invalid payload / write conflict) is not sent to
+\* p again - unless a request for it failed at another peer too, whose resend may go to p (resendFailedPieceRequests)
+Wanted(a, p) == IF a \in Agents
+                THEN {i \in have[p] \ have[a] : <<p, i>> \notin inv[a] \/ \E q \in Peers \ {p} : <<q, i>> \in inv[a]}
+                ELSE {}
 Between(p, q) == {m \in net : (m.to = p /\ m.from = q) \/ (m.to = q /\ m.from = p)}
 \* a connection nobody can use any more (the abstraction of "no piece sent or received for ConnTTI")
 Useless(p, q) == /\ req[p][q] = {} /\ req[q][p] = {} /\ Wanted(p, q) = {} /\ Wanted(q, p) = {}
@@ -144,17 +147,19 @@ Serve(p, a, i) ==
   /\ ServeGuard(p, a, i) /\ ServeEff(p, a, i, ServesGood(p, i), 0)
   /\ UNCHANGED <<cfgv, joined, left, have, bad, conn, req, inv, writing, dl>>
 
-\* the payload reaches storage; ov marks writers of the same piece that overlap in time (the later one gets a
-\* write conflict in the code, which the dispatcher treats like an invalid payload)
-StartWriteEff(a, m, n) ==
+\* the payload reaches storage.  A writer that finds the piece dirty (another write of it in progress) gets a
+\* write conflict, which the dispatcher treats like an invalid payload: ov marks that later writer.  With sym
+\* the earlier writer is marked too (used by the trace specification, where the order of two writers that
+\* start almost together is not observable).
+StartWriteEff(a, m, n, sym) ==
   /\ net' = net \ {m}
   /\ LET ovl == \E w \in writing[a] : w.piece = m.piece
      IN writing' = [writing EXCEPT ![a] =
-            {[w EXCEPT !.ov = w.ov \/ w.piece = m.piece] : w \in @}
+            {[w EXCEPT !.ov = w.ov \/ (sym /\ w.piece = m.piece)] : w \in @}
             \cup {[piece |-> m.piece, good |-> m.good, from |-> m.from, ov |-> ovl, n |-> n]}]
 StartWrite(a, m) ==
   /\ m \in net /\ m.to = a /\ a \in present
-  /\ StartWriteEff(a, m, 0)
+  /\ StartWriteEff(a, m, 0, FALSE)
   /\ UNCHANGED <<cfgv, joined, left, have, bad, conn, req, inv, dl>>
 
 \* outcome of a write:  "ok" piece verified and marked complete (Clear(i) drops every request for it);
